@@ -171,6 +171,24 @@ def classify_crash(stderr):
     return 'CRASH other'
 
 
+def confirm_hang(exe, line, env):
+    """None if the case hangs (or crashes) again under a generous watchdog, else its output line."""
+    env2 = dict(env, VERIF_WD_SECONDS='30', VERIF_BLOCK_MS=env.get('VERIF_BLOCK_MS', '400'))
+    with tempfile.NamedTemporaryFile('w', suffix='.cases', delete=False, dir=common.BUILD) as f:
+        f.write(line + '\n')
+        path = f.name
+    try:
+        p = subprocess.run([exe, path], stdout=subprocess.PIPE, stderr=subprocess.PIPE, timeout=240, env=env2)
+        out = [l for l in p.stdout.decode('utf-8', 'replace').split('\n') if l != '']
+        if p.returncode == 0 and len(out) >= 1:
+            return out[0]
+        return None
+    except subprocess.TimeoutExpired:
+        return None
+    finally:
+        os.unlink(path)
+
+
 def run_impl(exe, lines, timeout_per_batch=600, per_case_timeout=20, max_failures=6):
     """Run the C++ harness; isolates crashing / hanging cases (one result per input line).  After max_failures
     crashes / hangs in one batch the remaining cases are not run ('SKIPPED'): each hang costs a watchdog period."""
@@ -211,7 +229,16 @@ def run_impl(exe, lines, timeout_per_batch=600, per_case_timeout=20, max_failure
         # the case after the last complete line crashed / hung
         k = min(len(out), n - 1)
         results += out[:k]
-        results.append('HANG' if rc == -999 else classify_crash(err))
+        verdict = 'HANG' if rc == -999 else classify_crash(err)
+        if verdict.startswith('HANG') and not os.environ.get('VERIF_NO_CONFIRM'):
+            # a watchdog expiry can be the machine's fault (memory pressure, many sanitizer builds at once): the same case
+            # once more, alone, with a watchdog of 30 s; a hang is reported only if it hangs again
+            again = confirm_hang(exe, lines[start + k], env)
+            if again is not None:
+                results.append(again)
+                start += k + 1
+                continue
+        results.append(verdict)
         start += k + 1
         failures += 1
         if failures >= max_failures:
